@@ -200,6 +200,53 @@ let chub_line line =
     print_endline (Buffer.contents b)
   | _ -> ()
 
+(* ---------------- Wire loop (C11 C12 C13) ---------------- *)
+let wreq_of s : wreq option =
+  if s = "X" then None else
+  match String.split_on_char ':' s with
+  | ["H"; v] -> Some (SHello (z_of_dec v))
+  | ["L"] -> Some SList
+  | ["B"] -> Some SBye
+  | ["G"; p] -> Some (SGet (zl_of_hex p))
+  | ["P"; p; e; l; d] -> Some (SPut (zl_of_hex p, exp_of e, z_of_dec l, zl_of_hex d))
+  | ["D"; p; e] -> Some (SDel (zl_of_hex p, exp_of e))
+  | _ -> failwith ("bad wreq " ^ s)
+let wreply_str (rp : wreply) = match rp with
+  | RHello -> "Hello:1"
+  | RFingerprints l ->
+    let l = List.sort compare (List.map (fun (p, d) -> (hex_of_zl p, hex_of_zl d)) l) in
+    "Fingerprints:" ^ String.concat "," (List.map (fun (p, d) -> p ^ "=h" ^ d) l)
+  | RContent c -> Printf.sprintf "Content:%d:h%s:HASHOK:%s" (List.length c) (hex_of_zl c) (hex_of_zl c)
+  | RNotFound -> "Error:not_found"
+  | RBadPath -> "Error:bad_path"
+  | RMismatch -> "Error:mismatch"
+  | RPut (c, cur) -> Printf.sprintf "PutResult:%b:%s" c (match cur with Some d -> "h" ^ hex_of_zl d | None -> "none")
+  | RDel (c, cur) -> Printf.sprintf "DeleteResult:%b:%s" c (match cur with Some d -> "h" ^ hex_of_zl d | None -> "none")
+
+let cwire_line line =
+  match split_ws line with
+  | id :: fields ->
+    let tbl = ref [] and init = ref [] and dec = ref [] and inp = ref [] in
+    List.iter (fun f ->
+      let (k, v) = kv_of f in
+      if k = "T" then tbl := List.map (fun e -> match String.split_on_char ':' e with
+          | [c; h] -> (zl_of_hex c, List.map (fun ch -> z_of_int (Char.code ch)) (List.init (String.length h) (String.get h)))
+          | _ -> failwith "bad T") (split_on ';' v)
+      else if k = "I" then init := (if v = "-" then [] else List.map (fun e -> match String.split_on_char ':' e with
+          | [p; c] -> (zl_of_hex p, zl_of_hex c) | _ -> failwith "bad I") (split_on ';' v))
+      else if k = "D" then dec := (if v = "-" then [] else List.map (fun e ->
+          match String.index_opt e '>' with
+          | Some i -> (zl_of_hex (String.sub e 0 i), wreq_of (String.sub e (i + 1) (String.length e - i - 1)))
+          | None -> failwith "bad D") (split_on ';' v))
+      else if k = "IN" then inp := zl_of_hex v) fields;
+    let (((ex, replies), tree), allocs) = wire_exec !tbl !init !dec !inp in
+    Printf.printf "%s %s R=%s F=%s A=%s\n" id
+      (match ex with Exit0 -> "EXIT0" | ExitError -> "EXITERR" | OutOfFuel -> "OUTOFFUEL")
+      (if replies = [] then "-" else String.concat "," (List.map wreply_str replies))
+      (tree_str tree)
+      (if allocs = [] then "-" else String.concat "," (List.map (fun a -> string_of_int (int_of_z a)) allocs))
+  | _ -> ()
+
 let () =
   match Array.to_list Sys.argv with
   | _ :: "c17" :: file :: _ -> iter_lines file (c17_line false)
@@ -209,4 +256,8 @@ let () =
   | _ :: "cgreedy" :: file :: _ -> iter_lines file cgreedy_line
   | _ :: "cpatch" :: file :: _ -> iter_lines file cpatch_line
   | _ :: "chub" :: file :: _ -> iter_lines file chub_line
+  | _ :: "cwire" :: file :: _ -> iter_lines file cwire_line
+  | _ :: "crefuse" :: file :: _ -> iter_lines file (fun line -> match split_ws line with
+      | id :: p :: _ -> Printf.printf "%s %s\n" id (if refused (zl_of_hex p) then "REFUSED" else "ACCEPTED")
+      | _ -> ())
   | _ -> prerr_endline "usage: driver <kind> <cases file>"; exit 2
